@@ -19,6 +19,7 @@ import (
 	"runtime/debug"
 	"strconv"
 	"strings"
+	"syscall"
 	"time"
 
 	simrt "github.com/github/go-spdx/v2/zz_simrt"
@@ -33,14 +34,23 @@ func die(f string, a ...any) {
 		os.WriteFile(outPath, b, 0o644)
 	}
 	fmt.Fprintln(os.Stderr, "harness: "+msg)
-	os.Exit(2)
+	os.Exit(4)
 }
 
 var outPath string
 
+var progFD = -1
+
+// progress appends one line to the progress file (a crashed process leaves it behind)
+func progress(s string) {
+	if progFD >= 0 {
+		syscall.Write(progFD, []byte(s+"\n"))
+	}
+}
+
 // a call of the bounded corpus takes milliseconds; one that has not returned after this
 // long is blocked
-const hangTimeout = 20 * time.Second
+const hangTimeout = 10 * time.Second
 
 func readJSON(path string, v any) {
 	b, err := os.ReadFile(path)
@@ -87,11 +97,22 @@ func main() {
 	free := fs.Bool("free", false, "degraded mode: free-running goroutines, no simulator control")
 	wantSigs := fs.Bool("sigs", false, "include every run signature in the result")
 	budgetMs := fs.Int64("budget-ms", 0, "stop after this much wall time (0 = none)")
+	progPath := fs.String("progress", "", "progress file (one line per started call / run) for post-mortem of a crashed process")
 	fs.StringVar(&outPath, "out", "", "result file")
 	fs.Parse(os.Args[2:])
 
+	// the bounded corpus needs a few KB of stack; a runaway recursion (corrupted shared
+	// state) should die quickly rather than after filling 1 GB
+	debug.SetMaxStack(48 << 20)
 	if v := os.Getenv("VERIF_RACELOG"); v != "" {
 		raceLogPath = v + "." + strconv.Itoa(os.Getpid())
+	}
+	if *progPath != "" {
+		fd, err := syscall.Open(*progPath, syscall.O_WRONLY|syscall.O_CREAT|syscall.O_TRUNC|syscall.O_APPEND, 0o644)
+		if err != nil {
+			die("progress: %v", err)
+		}
+		progFD = fd
 	}
 	if *capFile != "" {
 		if err := redirectOutput(*capFile); err != nil {
@@ -165,10 +186,14 @@ func runOracle(c *proto.Corpus, order, ids string, seed uint64, free bool) {
 		die("bad order")
 	}
 	out := proto.OracleOut{Order: order, Hung: -1}
+	if b, err := json.Marshal(sel); err == nil {
+		progress(string(b))
+	}
 	// steps are measured by running each call as a one-task simulated run when the build
 	// is instrumented (seq policy: no preemption)
 	c0 := capSize()
-	for _, id := range sel {
+	for si, id := range sel {
+		progress(strconv.Itoa(si))
 		call := c.Calls[id]
 		var a *argSlice
 		var arg []string
@@ -248,6 +273,7 @@ func runSim(c *proto.Corpus, e *proto.Expected, seed uint64, proc, runs int, bui
 		if budgetMs > 0 && i%16 == 0 && time.Since(t0).Milliseconds() > budgetMs {
 			break
 		}
+		progress(strconv.Itoa(i))
 		rec := g.run(seed, proc, i)
 		if free {
 			rec.Policy = proto.PolicyRec{Kind: "free"}
@@ -370,6 +396,7 @@ func runReplay(rec *proto.Record, build string, free bool) {
 	var last runOutcome
 	where := -1
 	for i := range rec.Prefix {
+		progress(strconv.Itoa(i))
 		o := execRun(&rec.Prefix[i], free)
 		res.Runs++
 		if len(o.viol) > 0 {
@@ -383,6 +410,7 @@ func runReplay(rec *proto.Record, build string, free bool) {
 		}
 	}
 	if viol == nil {
+		progress(strconv.Itoa(len(rec.Prefix)))
 		o := execRun(&rec.Run, free)
 		res.Runs++
 		viol = o.viol
